@@ -1,3 +1,4 @@
+mod conf;
 mod ctl;
 mod elines;
 mod elines2;
@@ -23,6 +24,10 @@ fn main() {
     // the subject refuses to start commands' children when this is set; commands must not see a stale one
     std::env::remove_var("TXTPP_FILE");
     std::env::set_var("LC_ALL", "C");
+    if args[0] == "conf-child" {
+        std::panic::set_hook(Box::new(|_| {}));
+        std::process::exit(conf::child_main(&args[1]));
+    }
     let replay_path = std::fs::canonicalize(&args[1]).unwrap_or_else(|_| args[1].clone().into());
     std::env::set_current_dir("/").expect("chdir /");
     // panics of the subject are caught and reported by the engines; keep the text for diagnostics
@@ -64,6 +69,7 @@ fn dispatch(prop: &str, tier: &str) -> i32 {
         "C16" => elines2::run_c16(tier),
         "C15" => gram::run_c15(tier),
         "C14" => tags::run_c14(tier),
+        "C17" => conf::run_c17(tier),
         "C02" | "C03" | "C05" => sched::run_property(prop, tier),
         _ => {
             eprintln!("unknown property {prop}");
@@ -79,6 +85,7 @@ fn dispatch_replay(prop: &str, v: &serde_json::Value) -> bool {
         "E-lines2" => elines2::replay(v),
         "U-gram" => gram::replay(v),
         "U-tag" => tags::replay(v),
+        "E-conf" => conf::replay(v),
         e => {
             eprintln!("unknown engine {e:?} in replay file");
             std::process::exit(2);
